@@ -504,11 +504,6 @@ theorem byGeneChrom_genes_once' (ignore : List String) (rs : List Bin) :
       obtain ⟨f, hf⟩ := firstByName_covers hT
       exact ⟨⟨(f, g), hf, rfl⟩, hc⟩
 
-/-- no two consecutive groups are both labelled Antitarget -/
-def NoTwoAT : List (String × List Bin) → Prop
-  | a :: b :: rest => ¬(a.1 = antitarget ∧ b.1 = antitarget) ∧ NoTwoAT (b :: rest)
-  | _ => True
-
 theorem noTwoAT_cons_gene {x : String × List Bin} {l : List (String × List Bin)}
     (hx : x.1 ≠ antitarget) (hl : NoTwoAT l) : NoTwoAT (x :: l) := by
   cases l with
@@ -547,9 +542,6 @@ theorem byGeneChrom_noTwoAT' (ignore : List String) (rs : List Bin) : NoTwoAT (b
   goPos_noTwoAT (antitarget_ignored ignore) _ 0 (fun _ hx => hx)
 
 /-! ### any index labelling -/
-
-/-- replace the index labels of a table -/
-def relabel (f : Bin → Int) (b : Bin) : Bin := { b with label := f b }
 
 theorem names_relabel (f : Bin → Int) (b : Bin) : names (relabel f b) = names b := rfl
 
@@ -661,10 +653,6 @@ theorem byChrom_perm (t : List Bin) : (((byChrom t).map (·.2)).flatten).Perm t 
     simp [byChrom, List.flatMap_def, List.map_map, Function.comp_def]
   rw [h3]
   exact h
-
-/-- a table is contiguous when each chromosome's rows are -/
-def TableContiguous (ign : List String) (t : List Bin) : Prop :=
-  ∀ p ∈ byChrom t, Contiguous ign p.2
 
 theorem flatMap_flatten_eq {L : List (String × List Bin)} {F : String × List Bin → List (String × List Bin)}
     (h : ∀ p ∈ L, ((F p).map (·.2)).flatten = p.2) :
@@ -876,3 +864,409 @@ theorem squashGroup_gene (f : Summary) (sa : Bool) (g : String) (grp : List Bin)
         rw [hl]
         rfl
       exact ⟨_, a, _, hsq, rfl, hl, rfl, rfl, rfl, fun _ => rfl⟩
+
+/-! ### the executable hypothesis check -/
+
+/-- a reported last index points at an element satisfying the predicate -/
+theorem lastIdxWith_some {α} (p : α → Bool) :
+    ∀ (l : List α) (k : Nat), lastIdxWith p l = some k → ∃ x, l[k]? = some x ∧ p x = true
+  | [], k, h => by simp [lastIdxWith] at h
+  | x :: xs, k, h => by
+    simp only [lastIdxWith] at h
+    split at h
+    · rename_i k' hk'
+      cases h
+      obtain ⟨y, hy, hp⟩ := lastIdxWith_some p xs k' hk'
+      exact ⟨y, by simpa using hy, hp⟩
+    · split at h
+      · rename_i hpx
+        cases h
+        exact ⟨x, by simp, hpx⟩
+      · cases h
+
+/-- every element satisfying the predicate sits at or before the reported last index -/
+theorem lastIdxWith_ge {α} (p : α → Bool) :
+    ∀ (l : List α) (i : Nat) (x : α), l[i]? = some x → p x = true →
+      ∃ k, lastIdxWith p l = some k ∧ i ≤ k
+  | [], i, x, h, _ => by simp at h
+  | y :: ys, i, x, h, hp => by
+    simp only [lastIdxWith]
+    cases i with
+    | zero =>
+      simp at h
+      subst h
+      cases hl : lastIdxWith p ys with
+      | some k => exact ⟨k + 1, by simp, by omega⟩
+      | none => exact ⟨0, by simp [hp], Nat.le_refl _⟩
+    | succ i =>
+      simp at h
+      obtain ⟨k, hk, hik⟩ := lastIdxWith_ge p ys i x h hp
+      exact ⟨k + 1, by simp [hk], by omega⟩
+
+/-- no index reported: no element satisfies the predicate -/
+theorem lastIdxWith_none {α} (p : α → Bool) (l : List α) (h : lastIdxWith p l = none) :
+    ∀ x ∈ l, p x = false := by
+  intro x hx
+  obtain ⟨i, hi⟩ := List.mem_iff_getElem?.mp hx
+  cases hp : p x with
+  | false => rfl
+  | true =>
+    obtain ⟨k, hk, _⟩ := lastIdxWith_ge p l i x hi hp
+    rw [h] at hk
+    cases hk
+
+theorem Contiguous.tail {ign : List String} {b : Bin} {rest : List Bin}
+    (h : Contiguous ign (b :: rest)) : Contiguous ign rest := by
+  intro i j k bi bj bk hij hjk hi hj hk
+  exact h (i + 1) (j + 1) (k + 1) bi bj bk (by omega) (by omega)
+    (by simpa using hi) (by simpa using hj) (by simpa using hk)
+
+/-- the bins the head clause of `contiguousB` inspects for the gene `g` -/
+def uptoLast (ign : List String) (b : Bin) (rest : List Bin) (g : String) : List Bin :=
+  match lastIdxWith (fun x => (named ign x).contains g) rest with
+  | some k => b :: rest.take (k + 1)
+  | none => [b]
+
+theorem contiguousB_cons (ign : List String) (b : Bin) (rest : List Bin) :
+    contiguousB ign (b :: rest) = true ↔
+      (∀ g ∈ named ign b, ∀ y ∈ uptoLast ign b rest g, ∀ h ∈ named ign y, h = g) ∧
+        contiguousB ign rest = true := by
+  simp only [contiguousB, uptoLast, Bool.and_eq_true, List.all_eq_true, beq_iff_eq]
+  exact Iff.rfl
+
+theorem head_mem_uptoLast (ign : List String) (b : Bin) (rest : List Bin) (g : String) :
+    b ∈ uptoLast ign b rest g := by
+  unfold uptoLast
+  split <;> simp
+
+/-- membership in `uptoLast` by position in `b :: rest` -/
+theorem mem_uptoLast_of_le {ign : List String} {b : Bin} {rest : List Bin} {g : String}
+    {j k : Nat} {bj bk : Bin} (hjk : j ≤ k + 1) (hj : (b :: rest)[j]? = some bj)
+    (hk : rest[k]? = some bk) (hg : g ∈ named ign bk) : bj ∈ uptoLast ign b rest g := by
+  obtain ⟨k', hk', hkk'⟩ := lastIdxWith_ge (fun x => (named ign x).contains g) rest k bk hk
+    (List.contains_iff_mem.mpr hg)
+  unfold uptoLast
+  rw [hk']
+  cases j with
+  | zero =>
+    simp at hj
+    subst hj
+    simp
+  | succ j =>
+    have hj' : rest[j]? = some bj := by simpa using hj
+    apply List.mem_cons_of_mem
+    apply List.mem_iff_getElem?.mpr
+    refine ⟨j, ?_⟩
+    rw [List.getElem?_take]
+    have : j < k' + 1 := by omega
+    simp [this, hj']
+
+/-- an element of `uptoLast` lies between the head and a later bin carrying `g` (or is the head) -/
+theorem uptoLast_position {ign : List String} {b : Bin} {rest : List Bin} {g : String} {y : Bin}
+    (hy : y ∈ uptoLast ign b rest g) :
+    y = b ∨ ∃ (j k : Nat) (bk : Bin), j ≤ k ∧ rest[j]? = some y ∧ rest[k]? = some bk ∧ g ∈ named ign bk := by
+  unfold uptoLast at hy
+  split at hy
+  · rename_i k hk
+    obtain ⟨bk, hbk, hp⟩ := lastIdxWith_some _ rest k hk
+    rcases List.mem_cons.mp hy with h | h
+    · exact Or.inl h
+    · right
+      obtain ⟨j, hj⟩ := List.mem_iff_getElem?.mp h
+      rw [List.getElem?_take] at hj
+      split at hj
+      · refine ⟨j, k, bk, ?_, hj, hbk, List.contains_iff_mem.mp hp⟩
+        omega
+      · cases hj
+  · left
+    simpa using hy
+
+/-- the executable check used by the driver decides the property's hypothesis -/
+theorem contiguousB_iff' (ign : List String) (rs : List Bin) :
+    contiguousB ign rs = true ↔ Contiguous ign rs := by
+  induction rs with
+  | nil =>
+    constructor
+    · intro _ i j k bi bj bk _ _ hi
+      simp at hi
+    · intro _
+      rfl
+  | cons b rest ih =>
+    rw [contiguousB_cons]
+    constructor
+    · rintro ⟨hhead, htail⟩
+      have hrest := ih.mp htail
+      intro i j k bi bj bk hij hjk hi hj hk g hgi hgk h hh
+      cases i with
+      | zero =>
+        simp at hi
+        subst hi
+        cases k with
+        | zero =>
+          have : j = 0 := by omega
+          subst this
+          simp at hj
+          subst hj
+          exact hhead g hgi _ (head_mem_uptoLast ign _ rest g) h hh
+        | succ k =>
+          have hk' : rest[k]? = some bk := by simpa using hk
+          cases j with
+          | zero =>
+            simp at hj
+            subst hj
+            exact hhead g hgi _ (head_mem_uptoLast ign _ rest g) h hh
+          | succ j =>
+            exact hhead g hgi bj
+              (mem_uptoLast_of_le (j := j + 1) (k := k) (by omega) hj hk' hgk) h hh
+      | succ i =>
+        cases j with
+        | zero => omega
+        | succ j =>
+          cases k with
+          | zero => omega
+          | succ k =>
+            exact hrest i j k bi bj bk (by omega) (by omega) (by simpa using hi)
+              (by simpa using hj) (by simpa using hk) g hgi hgk h hh
+    · intro H
+      refine ⟨?_, ih.mpr H.tail⟩
+      intro g hg y hy h hh
+      rcases uptoLast_position hy with rfl | ⟨j, k, bk, hjk, hj, hk, hgk⟩
+      · exact H 0 0 0 y y y (Nat.le_refl _) (Nat.le_refl _) (by simp) (by simp) (by simp)
+          g hg hg h hh
+      · exact H 0 (j + 1) (k + 1) b y bk (by omega) (by omega) (by simp) (by simpa using hj)
+          (by simpa using hk) g hg hgk h hh
+
+/-! ### breaks -/
+
+/-! ### helper lemmas -/
+
+theorem brk_mem_firstKeys {l : List String} {c : String} : c ∈ firstKeys l ↔ c ∈ l := by
+  induction l with
+  | nil => simp [firstKeys]
+  | cons a as ih =>
+    simp only [firstKeys, List.mem_cons, List.mem_filter, ih]
+    constructor
+    · rintro (h | ⟨h, _⟩)
+      · exact Or.inl h
+      · exact Or.inr h
+    · rintro (h | h)
+      · exact Or.inl h
+      · by_cases hc : c = a
+        · exact Or.inl hc
+        · exact Or.inr ⟨h, by simpa using hc⟩
+
+/-- the two-step recursion of `breakpoints` visits exactly the consecutive pairs -/
+theorem mem_breakpoints (t : List Bin) (m : Nat) (segs : List SegRow) (brk : Brk) :
+    brk ∈ breakpoints t m segs ↔
+      ∃ cur nxt, Consecutive cur nxt segs ∧ brk ∈ breaksAt t m cur nxt := by
+  induction segs with
+  | nil =>
+    simp only [breakpoints, List.not_mem_nil, false_iff]
+    rintro ⟨cur, nxt, ⟨l1, l2, h⟩, _⟩
+    have := congrArg List.length h
+    simp at this
+  | cons a rest ih =>
+    cases rest with
+    | nil =>
+      simp only [breakpoints, List.not_mem_nil, false_iff]
+      rintro ⟨cur, nxt, ⟨l1, l2, h⟩, _⟩
+      have := congrArg List.length h
+      simp at this
+      omega
+    | cons b rest =>
+      simp only [breakpoints, List.mem_append, ih]
+      constructor
+      · rintro (h | ⟨cur, nxt, ⟨l1, l2, h⟩, hb⟩)
+        · exact ⟨a, b, ⟨[], rest, rfl⟩, h⟩
+        · exact ⟨cur, nxt, ⟨a :: l1, l2, by rw [h]; rfl⟩, hb⟩
+      · rintro ⟨cur, nxt, ⟨l1, l2, h⟩, hb⟩
+        cases l1 with
+        | nil =>
+          simp only [List.nil_append, List.cons.injEq] at h
+          obtain ⟨rfl, rfl, rfl⟩ := h
+          exact Or.inl hb
+        | cons x l1 =>
+          simp only [List.cons_append, List.cons.injEq] at h
+          exact Or.inr ⟨cur, nxt, ⟨l1, l2, h.2⟩, hb⟩
+
+theorem foldl_max_ge (l : List Int) (a : Int) :
+    a ≤ l.foldl max a ∧ ∀ x ∈ l, x ≤ l.foldl max a := by
+  induction l generalizing a with
+  | nil => simp
+  | cons y ys ih =>
+    simp only [List.foldl_cons]
+    have := ih (max a y)
+    refine ⟨by omega, ?_⟩
+    intro x hx
+    rcases List.mem_cons.mp hx with rfl | hx
+    · omega
+    · exact this.2 x hx
+
+theorem le_maxInt {l : List Int} {x : Int} (h : x ∈ l) : x ≤ maxInt l := by
+  cases l with
+  | nil => cases h
+  | cons y ys =>
+    simp only [maxInt]
+    rcases List.mem_cons.mp h with rfl | h
+    · exact (foldl_max_ge ys x).1
+    · exact (foldl_max_ge ys y).2 x h
+
+theorem sorted_headD_le {l : List Int} {x : Int} (h : x ∈ l) :
+    (l.mergeSort (fun a b => decide (a ≤ b))).headD 0 ≤ x := by
+  have hs : (l.mergeSort (fun a b => decide (a ≤ b))).Pairwise
+      (fun a b => (fun a b : Int => decide (a ≤ b)) a b = true) :=
+    List.pairwise_mergeSort (le := fun a b : Int => decide (a ≤ b))
+      (by intro a b c h1 h2; simp at *; omega) (by intro a b; simp; omega) l
+  have hx : x ∈ l.mergeSort (fun a b => decide (a ≤ b)) := List.mem_mergeSort.mpr h
+  cases hl : l.mergeSort (fun a b => decide (a ≤ b)) with
+  | nil => rw [hl] at hx; cases hx
+  | cons y ys =>
+    rw [hl] at hx hs
+    simp only [List.headD_cons]
+    rcases List.mem_cons.mp hx with rfl | hx
+    · exact Int.le_refl _
+    · have := List.rel_of_pairwise_cons hs hx
+      simpa using this
+
+/-- the rows `get_gene_intervals` keeps for a gene that is not ignored -/
+theorem filter_gene_eq (t : List Bin) (c g : String) (ign : List String)
+    (hg : ign.contains g = false) :
+    (t.filter (fun b => b.chrom == c && !ign.contains b.gene)).filter (fun b => b.gene == g) =
+      geneBins t c g := by
+  rw [List.filter_filter]
+  unfold geneBins
+  apply List.filter_congr
+  intro b _
+  cases h : (b.gene == g)
+  · simp
+  · have : b.gene = g := by simpa using h
+    rw [this, hg]
+    simp
+
+/-- the interval `get_gene_intervals` builds for the gene `g` of chromosome `c` -/
+def ivOf (t : List Bin) (c g : String) : GeneIv :=
+  { gene := g, starts := ((geneBins t c g).map (·.s)).mergeSort (fun a b => decide (a ≤ b)),
+    stop := maxInt ((geneBins t c g).map (·.e)) }
+
+theorem mem_geneIntervals (t : List Bin) (c : String) (iv : GeneIv) :
+    iv ∈ geneIntervals t c ↔
+      ∃ g, (fullIgnore defaultIgnore).contains g = false ∧ geneBins t c g ≠ [] ∧ iv = ivOf t c g := by
+  unfold geneIntervals
+  simp only [List.mem_mergeSort, List.mem_map, brk_mem_firstKeys]
+  constructor
+  · rintro ⟨g, ⟨b, hb, rfl⟩, rfl⟩
+    obtain ⟨hbt, hcond⟩ := List.mem_filter.mp hb
+    simp only [Bool.and_eq_true, Bool.not_eq_eq_eq_not, Bool.not_true] at hcond
+    obtain ⟨hc, hi⟩ := hcond
+    refine ⟨b.gene, hi, ?_, ?_⟩
+    · apply List.ne_nil_of_mem (a := b)
+      unfold geneBins
+      exact List.mem_filter.mpr ⟨hbt, by simp [hc]⟩
+    · simp only [ivOf, filter_gene_eq t c b.gene _ hi]
+  · rintro ⟨g, hi, hne, rfl⟩
+    obtain ⟨b, hb⟩ := List.exists_mem_of_ne_nil _ hne
+    unfold geneBins at hb
+    obtain ⟨hbt, hcond⟩ := List.mem_filter.mp hb
+    simp only [Bool.and_eq_true, beq_iff_eq] at hcond
+    obtain ⟨hc, hg⟩ := hcond
+    refine ⟨g, ⟨b, List.mem_filter.mpr ⟨hbt, ?_⟩, hg⟩, ?_⟩
+    · rw [hg, hi, hc]; simp
+    · simp only [ivOf, filter_gene_eq t c g _ hi]
+
+theorem countP_starts (t : List Bin) (c g : String) (p : Int → Bool) :
+    (ivOf t c g).starts.countP p = (geneBins t c g).countP (fun b => p b.s) := by
+  simp only [ivOf]
+  rw [(List.mergeSort_perm _ _).countP_eq p, List.countP_map]
+  rfl
+
+/-- the guard of `get_breakpoints` follows from one bin on each side of the boundary -/
+theorem guard_of_counts (t : List Bin) (c g : String) (x : Int) (hpos : ∀ b ∈ t, b.s < b.e)
+    (hl : 1 ≤ (geneBins t c g).countP (fun b => decide (b.s < x)))
+    (hr : 1 ≤ (geneBins t c g).countP (fun b => decide (b.s ≥ x))) :
+    (ivOf t c g).starts.headD 0 < x ∧ x < (ivOf t c g).stop := by
+  constructor
+  · obtain ⟨b, hb, hlt⟩ := List.countP_pos_iff.mp hl
+    have hlt' : b.s < x := by simpa using hlt
+    have : (ivOf t c g).starts.headD 0 ≤ b.s := by
+      simp only [ivOf]
+      exact sorted_headD_le (List.mem_map_of_mem hb)
+    omega
+  · obtain ⟨b, hb, hge⟩ := List.countP_pos_iff.mp hr
+    have hge' : x ≤ b.s := by simpa using hge
+    have hbt : b ∈ t := (List.mem_filter.mp hb).1
+    have := hpos b hbt
+    have : b.e ≤ (ivOf t c g).stop := by
+      simp only [ivOf]
+      exact le_maxInt (List.mem_map_of_mem hb)
+    omega
+
+theorem mem_breaksAt (t : List Bin) (m : Nat) (cur nxt : SegRow) (hm : 1 ≤ m)
+    (hpos : ∀ b ∈ t, b.s < b.e) (brk : Brk) :
+    brk ∈ breaksAt t m cur nxt ↔
+      nxt.chrom = cur.chrom ∧
+        ∃ g, (fullIgnore defaultIgnore).contains g = false ∧ geneBins t cur.chrom g ≠ [] ∧
+          m ≤ (geneBins t cur.chrom g).countP (fun b => decide (b.s < cur.e)) ∧
+          m ≤ (geneBins t cur.chrom g).countP (fun b => decide (b.s ≥ cur.e)) ∧
+          brk = { gene := g, chrom := cur.chrom, loc := cur.e, change := nxt.log2 - cur.log2,
+                  left := (geneBins t cur.chrom g).countP (fun b => decide (b.s < cur.e)),
+                  right := (geneBins t cur.chrom g).countP (fun b => decide (b.s ≥ cur.e)) } := by
+  unfold breaksAt
+  by_cases hch : nxt.chrom = cur.chrom
+  · have hne : (nxt.chrom != cur.chrom) = false := by simp [hch]
+    simp only [hne, Bool.false_eq_true, ↓reduceIte, List.mem_filterMap, mem_geneIntervals]
+    constructor
+    · rintro ⟨iv, ⟨g, hi, hnil, rfl⟩, hsome⟩
+      refine ⟨hch, g, hi, hnil, ?_⟩
+      split at hsome
+      · rw [countP_starts, countP_starts] at hsome
+        split at hsome
+        · rename_i hcnt
+          simp only [Bool.and_eq_true, decide_eq_true_eq] at hcnt
+          simp only [Option.some.injEq] at hsome
+          exact ⟨hcnt.1, hcnt.2, hsome.symm⟩
+        · cases hsome
+      · cases hsome
+    · rintro ⟨_, g, hi, hnil, hl, hr, rfl⟩
+      refine ⟨ivOf t cur.chrom g, ⟨g, hi, hnil, rfl⟩, ?_⟩
+      have hg := guard_of_counts t cur.chrom g cur.e hpos (by omega) (by omega)
+      have hguard : (decide ((ivOf t cur.chrom g).starts.headD 0 < cur.e) &&
+          decide (cur.e < (ivOf t cur.chrom g).stop)) = true := by
+        rw [decide_eq_true hg.1, decide_eq_true hg.2]; rfl
+      rw [if_pos hguard]
+      rw [countP_starts, countP_starts]
+      have hcnt : (decide ((geneBins t cur.chrom g).countP (fun b => decide (b.s < cur.e)) ≥ m) &&
+          decide ((geneBins t cur.chrom g).countP (fun b => decide (b.s ≥ cur.e)) ≥ m)) = true := by
+        simp [hl, hr]
+      rw [if_pos hcnt]
+      rfl
+  · have hne : (nxt.chrom != cur.chrom) = true := by simp [hch]
+    simp only [hne, ↓reduceIte, List.not_mem_nil, false_iff]
+    rintro ⟨h, _⟩
+    exact hch h
+
+/-- **breaks**: with `min_probes ≥ 1` and bins of positive length the report lists exactly the
+    genes (not ignored, not Antitarget) with at least `min_probes` bins starting on each side of
+    the boundary `cur.e` between two consecutive segments of one chromosome -/
+theorem breaks_exact' (t : List Bin) (m : Nat) (segs : List SegRow) (hm : 1 ≤ m)
+    (hpos : ∀ b ∈ t, b.s < b.e) (brk : Brk) :
+    brk ∈ breakpoints t m segs ↔
+      ∃ cur nxt, Consecutive cur nxt segs ∧ nxt.chrom = cur.chrom ∧
+        ∃ g, (fullIgnore defaultIgnore).contains g = false ∧ geneBins t cur.chrom g ≠ [] ∧
+          m ≤ (geneBins t cur.chrom g).countP (fun b => decide (b.s < cur.e)) ∧
+          m ≤ (geneBins t cur.chrom g).countP (fun b => decide (b.s ≥ cur.e)) ∧
+          brk = { gene := g, chrom := cur.chrom, loc := cur.e, change := nxt.log2 - cur.log2,
+                  left := (geneBins t cur.chrom g).countP (fun b => decide (b.s < cur.e)),
+                  right := (geneBins t cur.chrom g).countP (fun b => decide (b.s ≥ cur.e)) } := by
+  rw [mem_breakpoints]
+  constructor
+  · rintro ⟨cur, nxt, hc, hb⟩
+    exact ⟨cur, nxt, hc, (mem_breaksAt t m cur nxt hm hpos brk).mp hb⟩
+  · rintro ⟨cur, nxt, hc, hb⟩
+    exact ⟨cur, nxt, hc, (mem_breaksAt t m cur nxt hm hpos brk).mpr hb⟩
+
+/-- the driver's whole-table check decides the whole-table hypothesis -/
+theorem tableContiguousB_iff' (ign : List String) (t : List Bin) :
+    tableContiguousB ign t = true ↔ TableContiguous ign t := by
+  simp only [tableContiguousB, TableContiguous, List.all_eq_true, contiguousB_iff']
+
+end CnvVerif.Genes
